@@ -454,12 +454,24 @@ def structural_guarantees(ctx, chk, E, down_eval):
         elif found:
             chk.violation("C10.R5", nt, "guard-missing", f"assembler `{nt}` can succeed without testing {guard}", GA.g["file"])
     # print mem s : e guard  (s+e >= MB rejected upstream; downstream errs on end >= MB)
+    # the production that takes two addresses separated by ':' must have a rejecting path that is taken under a comparison;
+    # whether the comparison is the right bound is a value question (C17.R3 decides it on the printer's side)
     found = False
+    any_error = False
+    two_addr = False
     for k, p in enumerate(GA.productions("print_stmt")):
+        syms_ = [s_["name"] for s_ in p["symbols"]]
+        if '":"' not in syms_ or len([s_ for s_ in p["symbols"] if s_["t"] == "nt" and GA.nts.get(s_["name"], {}).get("type") in ("u32", "usize", "u16")]) < 2:
+            continue
+        two_addr = True
         for path in E.prod_paths("print_stmt", k):
-            if any(e.kind == "error" for e in path.effects) and any(">= MB" in c[0].replace(" ", " ") or ">=" in c[0] for c in path.conds):
-                found = True
+            if any(e.kind == "error" for e in path.effects):
+                any_error = True
+                if any(re.search(r"<|>", c[0]) and "matches" not in c[0] for c in path.conds):
+                    found = True
     if found:
-        chk.ok("C10.R5", "print-range-guard", "assembler rejects s+e >= MB before emitting `print mem s : e`")
+        chk.ok("C10.R5", "print-range-guard", "assembler rejects a range under a comparison before emitting `print mem s : e`")
+    elif two_addr and not any_error:
+        chk.violation("C10.R5", "print_stmt", "range-guard-missing", "assembler emits `print mem s : e` without any rejecting path (downstream Print returns an error for s+e >= MB)", GA.g["file"])
     else:
-        chk.violation("C10.R5", "print_stmt", "range-guard-missing", "assembler emits `print mem s : e` without rejecting s+e >= MB (downstream Print returns an error)", GA.g["file"])
+        chk.undecided_("C10.R5", "print-range-guard", "the rejecting path of `print mem s : e` is not taken under a recognisable comparison")
